@@ -25,14 +25,25 @@ Scalings == IF Depth = "thorough" THEN {1, 8, 100} ELSE {1, 8}
 \* cut lists in half units (sorted): inside, on the bounding box, outside, repeated, empty
 CutLists == {<<>>, <<10>>, <<7, 15>>, <<0, 12, 24>>, <<-6, 11, 11, 30>>, <<4, 5, 6, 7, 8>>, <<24>>, <<-2>>}
 
+PathSpines == {<< <<0, 0>>, <<8, 0>>, <<8, 6>> >>, << <<1, 1>>, <<1, 9>>, <<7, 9>>, <<7, 3>> >>,
+               << <<0, 0>>, <<6, 6>>, <<10, 6>> >>, << <<0, 8>>, <<9, 2>> >>}
+PathWidths == {<< <<2>>, <<0>> >>, << <<1>>, <<0>> >>, << <<2, 1>>, <<-2, 2>> >>}
 Init == \/ \E i \in DOMAIN Polys, lim \in Limits \cup {0, 4}, s \in Scalings :
               case = [k |-> "fracture", p |-> Polys[i], ip |-> i, limit |-> lim, s |-> s]
+        \* the same polygons through the GDSII writer's vertex limit (C01; filtered out by C12's runner)
+        \/ \E i \in DOMAIN Polys, lim \in Limits \cup {0, 4}, s \in Scalings :
+              case = [k |-> "gdsfrac", p |-> Polys[i], ip |-> i, limit |-> lim, s |-> s]
+        \* non-simple paths through the GDSII writer (C01): flexible and robust, 1-2 elements
+        \/ \E sp \in PathSpines, wo \in PathWidths, en \in {0, 2}, jn \in {0, 1, 2}, rb \in BOOLEAN :
+              /\ (rb => jn = 0)
+              /\ case = [k |-> "gdspath", spine |-> sp, widths |-> wo[1], offs |-> wo[2], end |-> en, join |-> jn,
+                         robust |-> rb, s |-> 4, ip |-> 0, limit |-> 0]
         \/ \E i \in DOMAIN Polys, c \in CutLists, ax \in {"x", "y"}, s \in Scalings :
               case = [k |-> "slice", p |-> Polys[i], ip |-> i, cuts |-> c, axis |-> ax, s |-> s]
 Next == UNCHANGED case
 
 \* the palette is made of simple polygons: every sample has winding -1, 0 or 1
-Laws == \A q \in FineSamples(-1, 12, 1) : Winding(FineOfUser(<<case.p>>, 1)[1], q) \in {-1, 0, 1}
+Laws == "p" \in DOMAIN case => \A q \in FineSamples(-1, 12, 1) : Winding(FineOfUser(<<case.p>>, 1)[1], q) \in {-1, 0, 1}
 
 AppendOpts == [format |-> "TXT", charset |-> "UTF-8",
                openOptions |-> <<"WRITE", "CREATE", "APPEND">>]
